@@ -208,8 +208,9 @@ def _add_hidden_metadata(note: Note) -> Note:
 
     if extra_tags != "":
         assert new_note.zid is not None
+        # Only the note's own ZID prefix: the body may mention the ZID again.
         new_note.body = new_note.body.replace(
-            new_note.zid, f"{new_note.zid}{extra_tags}"
+            new_note.zid, f"{new_note.zid}{extra_tags}", 1
         )
     return new_note
 
